@@ -95,15 +95,19 @@ EndsWithCastName(t) == IF IsK(t, "ifx") THEN EndsWithCastName(t[2])
                        ELSE IF IsBin(t) THEN EndsWithCastName(t[3])
                        ELSE IF IsUn(t) THEN EndsWithCastName(t[2])
                        ELSE IsK(t, "cast")
+\* DEV_NEG_ATOM=1 in the environment restores the printer before the repair of F-C02-a (a number node whose value
+\* has the sign bit set was treated as an atom); unset in every real run
+DevNegAtom == "DEV_NEG_ATOM" \in DOMAIN IOEnv /\ IOEnv.DEV_NEG_ATOM = "1"
 LeftNeedsBase(o, l) ==
   IF IsBin(l) THEN (IF ~RightAssoc(o) THEN Precedes(o, l[1]) ELSE ~Precedes(l[1], o))
   ELSE IF IsUn(l) THEN PrecedesUnary(o)
+  ELSE IF l = <<"negn">> THEN ~DevNegAtom /\ PrecedesUnary(o)
   ELSE IsK(l, "ifx")
 LeftNeeds(o, l) ==
   LET real == LeftNeedsBase(o, l) \/ EndsWithIf(l) \/ (o = "<" /\ EndsWithCastName(l)) IN
   IF FlipLeft /\ IsBin(l) THEN ~real ELSE real
 RightNeeds(o, r) == IF IsBin(r) THEN (IF RightAssoc(o) THEN Precedes(o, r[1]) ELSE ~Precedes(r[1], o)) ELSE FALSE
-CastNeeds(e) == IsBin(e) \/ IsUn(e) \/ IsK(e, "cast") \/ IsK(e, "ifx")
+CastNeeds(e) == IsBin(e) \/ IsUn(e) \/ IsK(e, "cast") \/ IsK(e, "ifx") \/ (e = <<"negn">> /\ ~DevNegAtom)
 
 Paren(s) == <<"(">> \o s \o <<")">>
 RECURSIVE Unparse(_)
@@ -127,7 +131,7 @@ Norm(t) == IF IsLeaf(t) THEN (IF t[1] = "negn" THEN <<"u-", <<"n">>>> ELSE t)
            ELSE <<t[1], Norm(t[2]), Norm(t[3])>>
 PrintParse(t) == Norm(Parse(Unparse(t))) = Norm(t)
 
-\* open finding F-C02-a: a number node with the sign bit set is printed as the two tokens `-` `digits` but
+\* REPAIRED finding F-C02-a (the predicate below describes where the old printer, DEV_NEG_ATOM=1, fails): a number node with the sign bit set is printed as the two tokens `-` `digits` but
 \* treated as an atom: as the left operand of `^` (`-2^x` is -(2^x)) or as the operand of a type assertion
 \* (`-2::T` is -(2::T)) the text means another tree.
 RECURSIVE Trigger_F_C02_a(_)
